@@ -284,9 +284,13 @@ def is_diag_of_freq(e: ast.AST, defs) -> bool:
 
 
 def mentions_freq(e, defs) -> bool:
+    """the value (not merely the shape / dtype / device) of the frequencies enters e"""
     for x in backward_slice(e, defs):
         for n in ast.walk(x):
             if self_attr(n) in ('frequencies', '_frequencies') or (isinstance(n, ast.Name) and n.id == 'frequencies'):
+                p = getattr(n, '_parent', None)
+                if isinstance(p, ast.Attribute) and p.attr in ('shape', 'dtype', 'device', 'ndim'):
+                    continue
                 return True
     return False
 
@@ -301,19 +305,45 @@ def check_builder(ctx, rep, qual: str, meth: str, symmetric: bool):
     key = f"{cls.name}.{meth}"
     defs = local_assignments(fn)
     body = [st for st in ast.walk(fn) if isinstance(st, ast.stmt)]
-    # product Q = R @ D
+    # the exchangeability matrix: the local that receives the two triangle stores
+    sub_stores: Dict[str, int] = {}
+    for st in fn.body:
+        if isinstance(st, ast.Assign) and isinstance(st.targets[0], ast.Subscript) and isinstance(st.targets[0].value, ast.Name):
+            sub_stores[st.targets[0].value.id] = sub_stores.get(st.targets[0].value.id, 0) + 1
+    # product Q = R @ diag(π)   or element-wise Q = R * π (π broadcast along the last axis)
     prod = None
     for st in fn.body:
-        if isinstance(st, ast.Assign) and isinstance(st.value, ast.BinOp) and isinstance(st.value.op, ast.MatMult) and isinstance(st.targets[0], ast.Name):
-            prod = st
+        if isinstance(st, ast.Assign) and isinstance(st.value, ast.BinOp) and isinstance(st.value.op, (ast.MatMult, ast.Mult)) and isinstance(st.targets[0], ast.Name):
+            ops = (st.value.left, st.value.right)
+            has_R = any(isinstance(o, ast.Name) and sub_stores.get(o.id, 0) >= 1 and o.id != st.targets[0].id for o in ops)
+            if has_R and any(mentions_freq(o, defs) for o in ops if not (isinstance(o, ast.Name) and sub_stores.get(o.id, 0) >= 1)) and prod is None:
+                prod = st
     if prod is None:
-        raise Unsupported(fn, f"{key}: rate matrix product R @ diag(π) not found")
+        raise Unsupported(fn, f"{key}: product of the exchangeability matrix with the frequencies not found")
     Qn = prod.targets[0].id
     L, Rr = prod.value.left, prod.value.right
-    right_is_diag = is_diag_of_freq(Rr, defs) and mentions_freq(Rr, defs)
-    left_is_diag = is_diag_of_freq(L, defs) and mentions_freq(L, defs)
-    rep.check('C04.B', f"{key}::frequencies-on-the-right", right_is_diag and not left_is_diag, where(cls.module, prod), {'product': norm_text(prod)},
-              f"{key}: the exchangeability matrix must be multiplied by diag(π) on the right (Q_ij = r_ij·π_j); `{norm_text(prod.value)}` gives "
+    if isinstance(prod.value.op, ast.MatMult):
+        right_is_diag = is_diag_of_freq(Rr, defs) and mentions_freq(Rr, defs)
+        left_is_diag = is_diag_of_freq(L, defs) and mentions_freq(L, defs)
+        ok_side = right_is_diag and not left_is_diag
+    else:
+        # element-wise: the frequency vector must vary along the last (column) axis: π, π.unsqueeze(-2), π[..., None, :]
+        fexpr = Rr if mentions_freq(Rr, defs) else L
+        if not mentions_freq(Rr, defs):
+            L = Rr
+        col = True
+        for x in backward_slice(fexpr, defs):
+            for n2 in ast.walk(x):
+                if isinstance(n2, ast.Call) and isinstance(n2.func, ast.Attribute) and n2.func.attr == 'unsqueeze' and n2.args:
+                    col = col and num(n2.args[0]) == -2
+                if isinstance(n2, ast.Subscript) and isinstance(n2.slice, ast.Tuple) and n2.slice.elts and isinstance(n2.slice.elts[-1], ast.Constant) \
+                        and n2.slice.elts[-1].value is None:
+                    col = False
+                if isinstance(n2, ast.Call) and isinstance(n2.func, ast.Attribute) and n2.func.attr in ('t', 'transpose', 'reshape', 'view'):
+                    col = False
+        ok_side = col
+    rep.check('C04.B', f"{key}::frequencies-on-the-right", ok_side, where(cls.module, prod), {'product': norm_text(prod)},
+              f"{key}: the exchangeability matrix must be scaled by the frequencies along its columns (R @ diag(π), i.e. Q_ij = r_ij·π_j); `{norm_text(prod.value)}` gives "
               f"Q_ij = π_i·r_ij, which is not reversible with respect to π")
     # exchangeability stores
     if isinstance(L, ast.Name):
